@@ -7,6 +7,7 @@ package main
 import (
 	"fmt"
 	"hash/fnv"
+	"sort"
 	"strings"
 )
 
@@ -34,6 +35,7 @@ type Case struct {
 	Hex   bool   `json:"hex,omitempty"`  // the value is printed with %x (strings with arbitrary bytes)
 	PT    string `json:"pt,omitempty"`   // the result type as %T prints it, when it differs from RT
 	Expr  string `json:"expr,omitempty"` // unary expression over a, when it is not a plain operator or conversion
+	Site  *Site  `json:"site,omitempty"` // a loop site (seq.go): the case is a sequence of evaluations
 }
 
 var opSym = map[string]string{
@@ -65,9 +67,19 @@ func hash64(parts ...string) uint64 {
 
 // selector decides which (row, form, context) combinations a tier runs.
 type selector struct {
-	full bool   // thorough: everything
-	seed string // quick: rows of the reduced set completely, the rest sampled
-	rate uint64 // per 10000
+	full     bool   // thorough: everything
+	seed     string // quick: rows of the reduced set completely, the rest sampled
+	rate     uint64 // per 10000
+	siteRate uint64
+}
+
+// takeSite: loop sites whose operands are all variables always run; the sites with a constant
+// operand are sampled in the quick tier.
+func (s *selector) takeSite(allVar bool, row, form, ctx string) bool {
+	if s.full || allVar {
+		return true
+	}
+	return hash64(s.seed, row, form, ctx)%10000 < s.siteRate
 }
 
 func (s *selector) take(red bool, row, form, ctx string) bool {
@@ -181,6 +193,10 @@ func mkOperand(letter byte, name, typ, val string) operand {
 
 // render writes the function(s) of one case. needsMath reports whether package math is used.
 func render(w *strings.Builder, k *Case) (needsMath bool) {
+	if k.Site != nil {
+		renderSite(w, k)
+		return false
+	}
 	id := k.ID
 	aval, bval := quoteIfString(k.Cls, k.A), quoteIfString(k.Cls, k.B)
 	if strings.Contains(aval, "math.") || strings.Contains(bval, "math.") {
@@ -305,12 +321,26 @@ func render(w *strings.Builder, k *Case) (needsMath bool) {
 func program(cases []Case) string {
 	var body strings.Builder
 	needsMath := false
+	decls := map[string]string{}
+	var declOrder []string
 	for i := range cases {
 		cases[i].ID = fmt.Sprintf("c%d", i)
 		if render(&body, &cases[i]) {
 			needsMath = true
 		}
+		if st := cases[i].Site; st != nil {
+			for n, d := range st.Decls {
+				if _, ok := decls[n]; !ok && d != "" {
+					decls[n] = d
+					declOrder = append(declOrder, n)
+					if strings.Contains(d, "math.") {
+						needsMath = true
+					}
+				}
+			}
+		}
 	}
+	sort.Strings(declOrder)
 	var w strings.Builder
 	w.Grow(body.Len() + len(cases)*8 + 256)
 	w.WriteString("package main\n\nimport (\n\t\"fmt\"\n")
@@ -318,6 +348,9 @@ func program(cases []Case) string {
 		w.WriteString("\t\"math\"\n")
 	}
 	w.WriteString(")\n\nfunc rec(id string) {\n\tif r := recover(); r != nil {\n\t\tfmt.Println(id, \"PANIC\")\n\t}\n}\n\n")
+	for _, n := range declOrder {
+		w.WriteString(decls[n] + "\n")
+	}
 	w.WriteString(body.String())
 	w.WriteString("\nfunc main() {\n")
 	for i := range cases {
